@@ -1,6 +1,7 @@
 package main
 
 import (
+	"context"
 	"fmt"
 	"strings"
 	"testing/synctest"
@@ -18,6 +19,12 @@ import (
 
 var c09SeqEvents = []string{"offer:12", "offer:23", "offer:2", "wait:4", "wait:12"}
 
+// second alphabet: "xfer" completes the transfer of the oldest offer that still waits for its stream
+// (dial the announced id, send one item per accepted key). Afterwards its keys are no longer
+// being received by that offer - whatever the receive goroutine still does for the next 15 s must
+// not touch the marks of offers accepted later.
+var c09SeqEventsXfer = []string{"offer:2", "offer:12", "xfer", "wait:4", "wait:12"}
+
 type c09SeqCase struct {
 	Part string   `json:"part"` // "sequence"
 	Seq  []string `json:"sequence"`
@@ -30,14 +37,38 @@ func c09SeqRun(r *mc.Report, nw *c09Net, seq []string) {
 	self := bn.P.Self().ID()
 	key := map[byte][]byte{'1': c09Key(self, 1, 0), '2': c09Key(self, 2, 0), '3': c09Key(self, 3, 0)}
 	type pending struct {
-		keys string
-		at   time.Time
+		keys   string
+		at     time.Time
+		connId uint16
 	}
 	var open []pending
 	wait := time.Duration(portalwire.VerifDefaultUTPConnTimeout)
 	var trace []string
 	for _, ev := range seq {
 		p := strings.Split(ev, ":")
+		if p[0] == "xfer" {
+			now := time.Now()
+			for i, o := range open {
+				if now.Sub(o.at) >= wait {
+					continue
+				}
+				if st, err := nw.dial(o.connId); err == nil {
+					var items [][]byte
+					for range o.keys {
+						items = append(items, []byte{0x5a})
+					}
+					st.Write(context.Background(), portalwire.VerifEncodeContents(items))
+					st.Close()
+					time.Sleep(time.Second)
+					synctest.Wait()
+					c09Drain(bn)
+					open = append(open[:i:i], open[i+1:]...)
+				}
+				break
+			}
+			trace = append(trace, ev)
+			continue
+		}
 		if p[0] == "wait" {
 			var s int
 			fmt.Sscanf(p[1], "%d", &s)
@@ -72,7 +103,7 @@ func c09SeqRun(r *mc.Report, nw *c09Net, seq []string) {
 			r.Violation("one-verdict-per-key", "v1:handler-error:overlapping-offers", err.Error(), c)
 			break
 		}
-		acc, shown, _, derr := c09Verdicts(1, reply)
+		acc, shown, connId, derr := c09Verdicts(1, reply)
 		if derr != nil || len(acc) != len(keys) {
 			r.Violation("one-verdict-per-key", "v1:verdict-count:overlapping-offers", fmt.Sprintf("%d keys, verdicts %s (%v)", len(keys), shown, derr), c)
 			break
@@ -88,7 +119,7 @@ func c09SeqRun(r *mc.Report, nw *c09Net, seq []string) {
 			accepted += string(p[1][i])
 		}
 		if accepted != "" {
-			open = append(open, pending{accepted, now})
+			open = append(open, pending{accepted, now, connId})
 		}
 		trace = append(trace, fmt.Sprintf("%s->%s", ev, shown))
 	}
@@ -105,7 +136,11 @@ func c09SeqLen(thorough bool) int {
 
 // c09Sequences enumerates every sequence of the given length; worker i takes every Of-th.
 func c09Sequences(r *mc.Report, e *Env, nw *c09Net, over func() bool) {
-	n := c09SeqLen(e.Thorough())
+	c09SequencesOver(r, e, nw, over, c09SeqEvents, c09SeqLen(e.Thorough()))
+	c09SequencesOver(r, e, nw, over, c09SeqEventsXfer, c09SeqLen(e.Thorough())-1)
+}
+
+func c09SequencesOver(r *mc.Report, e *Env, nw *c09Net, over func() bool, c09SeqEvents []string, n int) {
 	idx := make([]int, n)
 	count := 0
 	for {
@@ -137,7 +172,7 @@ func c09Sequences(r *mc.Report, e *Env, nw *c09Net, over func() bool) {
 			break
 		}
 	}
-	if e.Shard == 0 {
+	if e.Shard == 0 && len(c09SeqEvents) > 0 && c09SeqEvents[0] == "offer:12" {
 		r.Sample(c09SeqCase{"sequence", []string{"offer:12", "wait:4", "offer:23", "wait:12", "offer:2", "wait:4", "offer:2"}})
 	}
 }
